@@ -466,6 +466,22 @@ class C17(Check):
                         start=rng.randint(-4, 1) * 1000 + rng.choice([0, 500, 250, 1]))
         return {"kind": "intersect", "n1": n1, "n2": n2, "force": rng.random() < 0.5, "tag": t1 + "/" + t2}
 
+    def gen_twin_intersect(self, rng):
+        """two CONSECUTIVE intersections (consecutive cases run in the same worker process) whose products print alike — they differ
+        beyond the fourth significant digit — and are of opposite emptiness: `s(1+4e-4)x <= y <= sx, x >= 1` is empty,
+        `s(1-4e-5)x <= y <= sx, x >= 1` is a wedge that is 0.016·s wide at x = 400.  An answer carried over from the first product to
+        the second (a memo keyed on the printed form) drops a non-empty alternative or keeps an empty one."""
+        x, y = rng.sample(VS[:4], 2)
+        s_ = float(rng.choice([1, 2, 0.5]))
+        lo_empty = {"c": {x: s_ * 1.0004, y: -1.0}, "k": 0.0}
+        lo_wedge = {"c": {x: s_ * 0.99996, y: -1.0}, "k": 0.0}
+        upper = [{"c": {y: 1.0, x: -s_}, "k": 0.0}, {"c": {x: -1.0}, "k": -1.0}]
+        other = [{"c": {x: 1.0}, "k": -5.0}]          # a second alternative, far away, so that the result is never without alternatives
+        pair = [lo_empty, lo_wedge] if rng.random() < 0.5 else [lo_wedge, lo_empty]
+        return [{"kind": "intersect", "n1": [[dict(c=dict(t["c"]), k=t["k"])], [dict(c=dict(o["c"]), k=o["k"]) for o in other]],
+                 "n2": [[dict(c=dict(u["c"]), k=u["k"]) for u in upper], [dict(c=dict(o["c"]), k=o["k"]) for o in other]],
+                 "force": False, "tag": "twin/twin"} for t in pair]
+
     def gen_contains(self, rng):
         vs = VS[: rng.randint(1, 4)]
         if rng.random() < 0.12 and len(vs) >= 2:
@@ -555,6 +571,8 @@ class C17(Check):
                 if r < p:
                     out.append(g(rng))
                     break
+            if rng.random() < 0.03:
+                out += self.gen_twin_intersect(rng)
         return out
 
     # ---- implementation -----------------------------------------------------------------------
